@@ -32,6 +32,9 @@ type Plan struct {
 	WriteErr         error
 	ShortWrites      int // >0: each Write writes at most this many bytes then returns io.ErrShortWrite... (n < len, err != nil)
 	CloseErr         error
+	// EOFWithData: the Read call that delivers the last bytes of the file returns them together with io.EOF (n > 0,
+	// err == io.EOF), as the io.Reader contract allows and some sources do (io.SectionReader-like, network file systems)
+	EOFWithData bool
 	Delay            time.Duration // each I/O call sleeps (slow disk)
 }
 
@@ -198,6 +201,12 @@ func (fl *File) Read(b []byte) (int, error) {
 	}
 	n, err := fl.File.Read(b[:lim])
 	fl.roff += int64(n)
+	if p.EOFWithData && n > 0 && err == nil {
+		if st, serr := fl.File.Stat(); serr == nil && fl.roff >= st.Size() {
+			fl.fs.fire("eof-with-data")
+			return n, io.EOF
+		}
+	}
 	return n, err
 }
 
